@@ -1,30 +1,46 @@
-(** Property C09 (next_expiry / next_wait never oversleep and always make progress).
+(** Property C09: next_expiry / next_wait never oversleep and always make progress.
     Only property theorems live here; each is closed by [exact] of a lemma of coq/T. *)
 From Coq Require Import ZArith List Bool.
-From Stk Require Import Lib.U Gen.SrcTimers T.Model T.Spec T.Inv T.InvProofs.
+From Stk Require Import Lib.U Gen.SrcTimers T.Model T.Spec T.Inv T.InvProofs T.Rel T.Main T.Witness.
 Import ListNotations.
 Local Open Scope Z_scope.
 
-(** Model-only part (interim): in every state reachable by a history of admissible operations,
-    next_expiry() does not panic, is None exactly when the timer queue is empty, and otherwise is
-    strictly later than Core::now. *)
+(** For every good history the C09 monitor of T/Spec.v is true at every operation:
+    next_expiry() is None exactly when no timer is pending, otherwise strictly later than
+    Core::now and at most one resolution step after the earliest pending deadline ([ne_ok]);
+    next_wait and next_wait_max agree with it (saturating at zero, capped by maxdur, zero when
+    [pending]); and the FULL drain clause [vprog]: in a loop that repeatedly runs at exactly the
+    instant next_expiry() announced, the number of consecutive rounds never exceeds the budget
+    [drain_budget] fixed when the loop started (8 + 64 per pending timer + 32 per pending timer and
+    started 32767 s of remaining time) - so every pending timer fires after a bounded number of
+    iterations.  Proved with a potential function ([Rel.Phi]) that every evaluated queue entry
+    lowers by at least one. *)
+Theorem C09_next_expiry : forall ops, good ops -> v09 (mon_all (model_history ops)) = true.
+Proof. exact C09_all. Qed.
+Check C09_next_expiry : forall ops, good ops -> v09 (mon_all (model_history ops)) = true.
+Print Assumptions C09_next_expiry.
+
+(** strict progress on the model alone (arbitrary keys): a run at the instant announced by
+    next_expiry() moves Core::now to it, and afterwards every queued key is strictly later than
+    the key that was announced *)
+Theorem C09_progress :
+  forall s n t, TInv s -> counters_ok s n -> n < HMAX -> next_expiry s = Some (Some t) -> t < TMAX ->
+  exists s' f e1 q, queue s = e1 :: q /\ tstep s (ORun t) = Some (s', RFired f) /\ TInv s' /\
+    cnow s < t /\ cnow s' = t /\
+    forall y, In y (queue s') -> Tof (now s) (e_wt e1) < Tof (now s') (e_wt y).
+Proof. exact run_at_next_expiry_progress. Qed.
+Print Assumptions C09_progress.
+
+(** in every state reachable with arbitrary keys: next_expiry() does not panic, is None exactly
+    when the queue is empty, and otherwise is strictly later than Core::now *)
 Theorem C09_after_now_partial :
   forall ops, Z.of_nat (length ops) <= HMAX -> ops_ok t_init ops ->
   let sf := snd (trun t_init ops) in
   exists r, next_expiry sf = Some r /\ (r = None <-> queue sf = []) /\ (forall t, r = Some t -> cnow sf < t).
 Proof. exact next_expiry_after_now_reachable. Qed.
-Check C09_after_now_partial :
-  forall ops, Z.of_nat (length ops) <= HMAX -> ops_ok t_init ops ->
-  let sf := snd (trun t_init ops) in
-  exists r, next_expiry sf = Some r /\ (r = None <-> queue sf = []) /\ (forall t, r = Some t -> cnow sf < t).
 Print Assumptions C09_after_now_partial.
 
-Example ex_c09 :
-  let ops := [ORun 10000000000; OAddMin 100000000000 1; OAdd 12000000000 2] in
-  (Z.of_nat (length ops) <= HMAX /\ ops_ok t_init ops) /\
-  next_expiry (snd (trun t_init ops)) = Some (Some 12000000000).
-Proof. vm_compute. repeat split; try reflexivity; try discriminate. Qed.
-
-(* placeholder until the full theorem lands (next milestone) *)
-Theorem C09_next_expiry : True. Proof. exact I. Qed.
-Print Assumptions C09_next_expiry.
+Example C09_good_satisfiable : good good_ops /\ band_free good_ops.
+Proof. exact good_ops_good. Qed.
+Example C09_good_verdict : v_all (mon_all (model_history good_ops)) = true.
+Proof. exact good_ops_verdict. Qed.
